@@ -6,6 +6,6 @@ ids="$*"
 [ -n "$ids" ] || ids=$(python3 -c "import json;print(' '.join(c['property_id'] for c in json.load(open('MANIFEST.json'))['checks']))")
 for p in $ids; do
   echo "=== $p thorough"
-  VERIF_SURVEY=1 timeout 3300 ./check $p thorough 2>&1 | grep -v "^KNOWN\|^  \|^Traceback" | cut -c1-400
+  VERIF_SURVEY=1 VERIF_SEED=${VERIF_SEED:-1} timeout 3300 ./check $p thorough 2>&1 | grep -v "^KNOWN\|^  \|^Traceback" | cut -c1-400
   echo "exit=$?"
 done
